@@ -8,6 +8,7 @@ import (
 	"regexp"
 	"strconv"
 	"strings"
+	"unicode/utf8"
 
 	at "github.com/DanielSvub/anytype"
 	"verif/ev"
@@ -109,6 +110,31 @@ func c20One(k c20Case, file string) (msg, sig string, cited bool) {
 	}
 	got, _ := strconv.Atoi(m[1])
 	if got != want {
+		// Fillers such as NEL, LS, PS, VT, FF are white space for the unchanged (lenient) parser but not JSON white
+		// space. For a stricter parser a text containing one outside a string literal has MORE than the one injected
+		// error: it may rightly report the filler character itself, or - taking it for the start of a bare literal -
+		// the delimiter that ends that literal, which can lie behind our injection point. The statement then asks for
+		// the line of that character. For such texts the cited line is therefore only required to be a line that some
+		// character from the first such filler to the end of the text is on; a newline MISCOUNT (fillers counted as
+		// line breaks) still falls outside that range in the layouts whose fillers contain no LF at all.
+		inStr, esc, first := false, false, -1
+		for i := 0; i < len(text) && first < 0; {
+			r, size := utf8.DecodeRuneInString(text[i:])
+			switch {
+			case inStr && esc:
+				esc = false
+			case inStr && r == '\\':
+				esc = true
+			case r == '"':
+				inStr = !inStr
+			case !inStr && (r == 0x85 || r == 0x2028 || r == 0x2029 || r == '\v' || r == '\f' || r == 0xA0):
+				first = i
+			}
+			i += size
+		}
+		if first >= 0 && got >= 1+strings.Count(text[:first], "\n") && got <= 1+strings.Count(text, "\n") {
+			return "", "", true
+		}
 		return fmt.Sprintf("%s(%+q): error %q cites line %d, but the error is detected at byte %d (%+q) which is on line %d", entry, text, err.Error(), got, off, text[off:off+1], want), "line/wrong/" + k.Kind + "/" + entry, true
 	}
 	return "", "", true
